@@ -87,9 +87,10 @@ def run(tier, seed):
         hs = hists if len(hists) <= per_metric else rng.sample(hists, per_metric)
         for h in hs:
             total += 1
-            probs = ML.replay_history(name, [(w, p) for (w, p) in h], 3, reuse_buffer=(total % 2 == 0))
+            variant = (total // 2) % ML.NVARIANTS      # the three symbolic pairs of the history in several concrete encodings
+            probs = ML.replay_history(name, [(w, p) for (w, p) in h], 3, reuse_buffer=(total % 2 == 0), variant=variant)
             for (clause, detail) in probs:
-                ctx.violation(clause, "metric=%s" % name, detail, {"metric": name, "history": h})
+                ctx.violation(clause, "metric=%s" % name, detail, {"metric": name, "history": h, "variant": variant})
             if probs:
                 break
         ctx.nontrivial(("A", name))
@@ -102,7 +103,7 @@ def run(tier, seed):
     # long random histories (state leaking only after many calls)
     for name in names:
         h = [(rng.randrange(1, 4), rng.choice(["p1", "p2", "p3"])) for _ in range(200 if quick else 10000)]
-        for (clause, detail) in ML.replay_history(name, h, 3, reuse_buffer=True):
+        for (clause, detail) in ML.replay_history(name, h, 3, reuse_buffer=True, variant=total % ML.NVARIANTS):
             ctx.violation(clause, "metric=%s long history" % name, detail, {"metric": name, "history": h[:50]})
         total += 1
     n_int = explainer_integration(ctx, rng, 6 if quick else 40)
